@@ -2,9 +2,11 @@
 # run every registered quick check on the current tree (evidence files are rewritten); summary at the end
 cd "$(dirname "$0")/.." || exit 3
 TIER=${1:-quick}
+# run_all.sh quick baseline : also (re)write baseline.json (only on the clean tree, before committing)
+BL=""; [ "$2" = "baseline" ] && BL="--write-baseline"
 rc=0
 for p in $(.venv/bin/python -c "import json; print(' '.join(c['property_id'] for c in json.load(open('MANIFEST.json'))['checks']))"); do
-  bin/check $p --tier $TIER > /tmp/runall_$p.log 2>&1; e=$?
+  bin/check $p --tier $TIER $BL > /tmp/runall_$p.log 2>&1; e=$?
   echo "$p exit=$e $(grep -c VIOLATION /tmp/runall_$p.log) violations: $(head -1 /tmp/runall_$p.log | cut -c1-150)"
   [ $e -ne 0 ] && rc=1
 done
